@@ -260,4 +260,120 @@ theorem encryptZeroSym_coeff {l : Level} (hl : l.WF) (hs : l.scheme ≠ .bgv) {s
   · have hsv' : seedSaved l saveSeed = false := by simpa using hsv
     simp [hsv']
 
+/-! ## E2: the exact phase of a fresh ciphertext modulo Q -/
+
+/-- the ring identity `phase_fresh_pk` on integer coefficient functions (pulled back from ℤ[X]/(X^n+1)):
+    (−(P1⋆S + E))⋆U + E0 + M + (P1⋆U + E1)⋆S = M − E⋆U + E0 + E1⋆S -/
+theorem c01e_pk_identity {n : Nat} (hn : 0 < n) (P1 S E U E0 E1 M : Nat → Int) :
+    ∀ c, c < n →
+      negMulR n (fun p => (-1 : Int) * (negMulR n P1 S p + E p)) U c + E0 c + M c
+        + negMulR n (fun p => negMulR n P1 U p + E1 p) S c
+      = M c - negMulR n E U c + E0 c + negMulR n E1 S c := by
+  have hξ := c02x_root_pow n
+  apply c02x_pull hn
+  generalize hξd : AdjoinRoot.root ((X : ℤ[X])^n + 1) = ξ at hξ ⊢
+  have e1 : c02w_ev n ξ (fun c => negMulR n (fun p => (-1 : Int) * (negMulR n P1 S p + E p)) U c + E0 c + M c
+        + negMulR n (fun p => negMulR n P1 U p + E1 p) S c)
+      = (((-1 : Int) : c02x_Rn n) * (c02w_ev n ξ P1 * c02w_ev n ξ S + c02w_ev n ξ E)) * c02w_ev n ξ U + c02w_ev n ξ E0
+        + c02w_ev n ξ M + (c02w_ev n ξ P1 * c02w_ev n ξ U + c02w_ev n ξ E1) * c02w_ev n ξ S := by
+    rw [c02x_ev_add n ξ (fun c => negMulR n (fun p => (-1 : Int) * (negMulR n P1 S p + E p)) U c + E0 c + M c)
+        (negMulR n (fun p => negMulR n P1 U p + E1 p) S),
+      c02x_ev_add n ξ (fun c => negMulR n (fun p => (-1 : Int) * (negMulR n P1 S p + E p)) U c + E0 c) M,
+      c02x_ev_add n ξ (negMulR n (fun p => (-1 : Int) * (negMulR n P1 S p + E p)) U) E0,
+      c02w_ev_negMul hn hξ, c02w_ev_negMul hn hξ,
+      c02w_ev_smul n ξ (-1) (fun p => negMulR n P1 S p + E p),
+      c02x_ev_add n ξ (negMulR n P1 S) E, c02x_ev_add n ξ (negMulR n P1 U) E1,
+      c02w_ev_negMul hn hξ, c02w_ev_negMul hn hξ]
+  have e2 : c02w_ev n ξ (fun c => M c - negMulR n E U c + E0 c + negMulR n E1 S c)
+      = c02w_ev n ξ M - c02w_ev n ξ E * c02w_ev n ξ U + c02w_ev n ξ E0 + c02w_ev n ξ E1 * c02w_ev n ξ S := by
+    rw [c02x_ev_add n ξ (fun c => M c - negMulR n E U c + E0 c) (negMulR n E1 S),
+      c02x_ev_add n ξ (fun c => M c - negMulR n E U c) E0,
+      c02x_ev_sub n ξ M (negMulR n E U), c02w_ev_negMul hn hξ, c02w_ev_negMul hn hξ]
+  rw [e1, e2]
+  push_cast
+  ring
+
+/-- the public key (NTT form; only its first `l.size` components matter at level `l`) is an encryption of zero under `sk` with
+    error polynomial `E` (BGV: `E` = t·e): intt(pk0_i) ≡ −(intt(pk1_i) ⋆ s + E) modulo q_i, in every component.
+    `encryptZeroSym_isPk` below: this is what the model's own key generation (symmetric encryption of zero in NTT form) yields. -/
+def PkRel (l : Level) (sk : Array Int) (E : Nat → Int) (pk0 pk1 : RnsPoly) : Prop :=
+  PreCanon l pk0 ∧ PreCanon l pk1 ∧ ∀ i, i < l.size → ∀ c, c < l.n →
+    (((intt (l.tbl i) (pk0.getD i #[])).getD c 0 : Nat) : Int) ≡
+      (-1 : Int) * (negMulR l.n (fun p => (((intt (l.tbl i) (pk1.getD i #[])).getD p 0 : Nat) : Int)) (fun p => sk.getD p 0) c + E c)
+      [ZMOD ((l.q i).value : Int)]
+
+/-- phase of a size-2 ciphertext from per-component congruences of its two polynomials with "public key ⋆ u + error (+ message)" -/
+theorem c01e_phase_pk {l : Level} (hl : l.WF) (hq : c07s_LevelQ l) {sk : Array Int} {E U E0 E1 M : Nat → Int}
+    {pk0 pk1 u c0 c1 : RnsPoly} (hpk : PkRel l sk E pk0 pk1)
+    (hu : ∀ i, i < l.size → ∀ p, p < l.n → (((u.getD i #[]).getD p 0 : Nat) : Int) ≡ U p [ZMOD ((l.q i).value : Int)])
+    (h0 : c0.size = l.size) (h1 : c1.size = l.size)
+    (hc0 : ∀ i, i < l.size → ∀ c, c < l.n → (((c0.getD i #[]).getD c 0 : Nat) : Int) ≡
+      (negMulNat l.n (l.q i).value (intt (l.tbl i) (pk0.getD i #[])) (u.getD i #[]) c : Int) + E0 c + M c [ZMOD ((l.q i).value : Int)])
+    (hc1 : ∀ i, i < l.size → ∀ c, c < l.n → (((c1.getD i #[]).getD c 0 : Nat) : Int) ≡
+      (negMulNat l.n (l.q i).value (intt (l.tbl i) (pk1.getD i #[])) (u.getD i #[]) c : Int) + E1 c [ZMOD ((l.q i).value : Int)]) :
+    ∀ c, c < l.n → (Spec.phase (c01p_qvals l) l.n sk [c0, c1]).getD c 0 ≡
+      M c - negMulR l.n E U c + E0 c + negMulR l.n E1 (fun p => sk.getD p 0) c [ZMOD (Spec.prodL (c01p_qvals l) : Int)] := by
+  have hn0 := c01q_n_pos hl
+  have hsz := hq.size_eq
+  intro c hc
+  rw [c01q_qvals_eq hq, c01p_prodL_bvals hq.bwf]
+  apply c04k_crt_merge hq.bwf
+  intro j hj
+  have hjl : j < l.size := by rw [← hsz]; exact hj
+  have hq0 : 0 < (l.q j).value := by have := (c01o_level_comp hl hjl).2.2.2.two_le; omega
+  refine Int.ModEq.trans (c04k_spec_phase_modEq hq.bwf (sk := sk) (by rw [hsz]; exact h0) (by rw [hsz]; exact h1) hc hj) ?_
+  rw [hq.q_eq hjl]
+  unfold c05u_phase2
+  -- the two polynomials as integer functions
+  have hP0 : ∀ c, c < l.n → (((c0.getD j #[]).getD c 0 : Nat) : Int) ≡
+      negMulR l.n (fun p => (-1 : Int) * (negMulR l.n (fun p => (((intt (l.tbl j) (pk1.getD j #[])).getD p 0 : Nat) : Int))
+        (fun p => sk.getD p 0) p + E p)) U c + E0 c + M c [ZMOD ((l.q j).value : Int)] := by
+    intro c hc
+    refine (hc0 j hjl c hc).trans (Int.ModEq.add (Int.ModEq.add ?_ (Int.ModEq.refl _)) (Int.ModEq.refl _))
+    refine (c02w_negMulNat_modEq hq0 _ _ (fun p => (((intt (l.tbl j) (pk0.getD j #[])).getD p 0 : Nat) : Int)) U
+      (fun p _ => Int.ModEq.refl _) (fun p hp => hu j hjl p hp) hc).trans ?_
+    exact c02x_negMulR_modEq l.n _ (fun p hp => hpk.2.2 j hjl p hp) (fun p _ => Int.ModEq.refl _) hc
+  have hP1 : ∀ c, c < l.n → (((c1.getD j #[]).getD c 0 : Nat) : Int) ≡
+      negMulR l.n (fun p => (((intt (l.tbl j) (pk1.getD j #[])).getD p 0 : Nat) : Int)) U c + E1 c [ZMOD ((l.q j).value : Int)] := by
+    intro c hc
+    refine (hc1 j hjl c hc).trans (Int.ModEq.add ?_ (Int.ModEq.refl _))
+    exact c02w_negMulNat_modEq hq0 _ _ (fun p => (((intt (l.tbl j) (pk1.getD j #[])).getD p 0 : Nat) : Int)) U
+      (fun p _ => Int.ModEq.refl _) (fun p hp => hu j hjl p hp) hc
+  have hsum := (hP0 c hc).add (c02x_negMulR_modEq l.n ((l.q j).value : Int) hP1 (fun p _ => Int.ModEq.refl (sk.getD p 0)) hc)
+  rw [c01e_pk_identity hn0 _ _ E U E0 E1 M c hc] at hsum
+  exact hsum
+
+/-- phase of a secret-key ciphertext (c0, c1) with c0 ≡ −(c1⋆s + E) + M per component: M − E -/
+theorem c01e_phase_sk {l : Level} (hl : l.WF) (hq : c07s_LevelQ l) {sk : Array Int} {E M : Nat → Int} {c0 c1 : RnsPoly}
+    (h0 : c0.size = l.size) (h1 : c1.size = l.size)
+    (hc0 : ∀ i, i < l.size → ∀ c, c < l.n → (((c0.getD i #[]).getD c 0 : Nat) : Int) ≡
+      (-1 : Int) * ((negMulNat l.n (l.q i).value (c1.getD i #[]) (skRes l sk i) c : Int) + E c) + M c [ZMOD ((l.q i).value : Int)]) :
+    ∀ c, c < l.n → (Spec.phase (c01p_qvals l) l.n sk [c0, c1]).getD c 0 ≡ M c - E c [ZMOD (Spec.prodL (c01p_qvals l) : Int)] := by
+  have hsz := hq.size_eq
+  intro c hc
+  rw [c01q_qvals_eq hq, c01p_prodL_bvals hq.bwf]
+  apply c04k_crt_merge hq.bwf
+  intro j hj
+  have hjl : j < l.size := by rw [← hsz]; exact hj
+  have hq0 : 0 < (l.q j).value := by have := (c01o_level_comp hl hjl).2.2.2.two_le; omega
+  refine Int.ModEq.trans (c04k_spec_phase_modEq hq.bwf (sk := sk) (by rw [hsz]; exact h0) (by rw [hsz]; exact h1) hc hj) ?_
+  rw [hq.q_eq hjl]
+  unfold c05u_phase2
+  have hN : (negMulNat l.n (l.q j).value (c1.getD j #[]) (skRes l sk j) c : Int) ≡
+      negMulR l.n (fun p => (((c1.getD j #[]).getD p 0 : Nat) : Int)) (fun p => sk.getD p 0) c [ZMOD ((l.q j).value : Int)] :=
+    c02w_negMulNat_modEq hq0 _ _ _ _ (fun p _ => Int.ModEq.refl _)
+      (fun p _ => by rw [c01p_skRes_eq]; exact c01p_skResQ_modEq sk hq0 p) hc
+  have h := (hc0 j hjl c hc).add (Int.ModEq.refl (negMulR l.n (fun p => (((c1.getD j #[]).getD p 0 : Nat) : Int)) (fun p => sk.getD p 0) c))
+  refine h.trans ?_
+  have h2 : (-1 : Int) * ((negMulNat l.n (l.q j).value (c1.getD j #[]) (skRes l sk j) c : Int) + E c) + M c
+      + negMulR l.n (fun p => (((c1.getD j #[]).getD p 0 : Nat) : Int)) (fun p => sk.getD p 0) c
+      ≡ (-1 : Int) * (negMulR l.n (fun p => (((c1.getD j #[]).getD p 0 : Nat) : Int)) (fun p => sk.getD p 0) c + E c) + M c
+      + negMulR l.n (fun p => (((c1.getD j #[]).getD p 0 : Nat) : Int)) (fun p => sk.getD p 0) c [ZMOD ((l.q j).value : Int)] :=
+    Int.ModEq.add (Int.ModEq.add (Int.ModEq.mul (Int.ModEq.refl _) (Int.ModEq.add hN (Int.ModEq.refl _))) (Int.ModEq.refl _))
+      (Int.ModEq.refl _)
+  refine h2.trans ?_
+  have e : (-1 : Int) * (negMulR l.n (fun p => (((c1.getD j #[]).getD p 0 : Nat) : Int)) (fun p => sk.getD p 0) c + E c) + M c
+      + negMulR l.n (fun p => (((c1.getD j #[]).getD p 0 : Nat) : Int)) (fun p => sk.getD p 0) c = M c - E c := by ring
+  rw [e]
+
 end HC
